@@ -54,18 +54,20 @@ BasisLevelsAcc(K, x, k, acc) ==
 BasisLevels(K, x, left) ==
   LET l0 == RForce([n \in 1..(2 * K + 1) |-> CdB(n - K - 1, 0, x, left)])
   IN BasisLevelsAcc(K, x, 1, <<l0>>)
-\* p-th derivative (p = 0, 1, 2) of N_{m-K,K}, m = 0..K, as a sequence indexed m+1
-BasisDerivs(K, x, p, left) ==
-  LET L == BasisLevels(K, x, left)
-  IN IF p = 0 THEN RForce([n \in 1..(K + 1) |-> L[K + 1][n]])
-     ELSE IF p = 1 THEN RForce([n \in 1..(K + 1) |-> RSub(L[K][n], L[K][n + 1])])
-     ELSE IF K < 2 THEN RForce([n \in 1..(K + 1) |-> R0])
-     ELSE RForce([n \in 1..(K + 1) |-> RAdd(RSub(L[K - 1][n], RMul(R2, L[K - 1][n + 1])), L[K - 1][n + 2])])
+\* p-th derivative (p = 0, 1, 2) of N_{m-K,K}, m = 0..K, as a sequence indexed m+1, from the table L
+DerivsFrom(L, K, p) ==
+  IF p = 0 THEN RForce([n \in 1..(K + 1) |-> L[K + 1][n]])
+  ELSE IF p = 1 THEN RForce([n \in 1..(K + 1) |-> RSub(L[K][n], L[K][n + 1])])
+  ELSE IF K < 2 THEN RForce([n \in 1..(K + 1) |-> R0])
+  ELSE RForce([n \in 1..(K + 1) |-> RAdd(RSub(L[K - 1][n], RMul(R2, L[K - 1][n + 1])), L[K - 1][n + 2])])
 RECURSIVE SuffixSum(_, _, _)
 SuffixSum(v, j, hi) == IF j > hi THEN R0 ELSE RAdd(v[j], SuffixSum(v, j + 1, hi))
-BasisCumT(K, u, p) ==
-  LET d == BasisDerivs(K, u, p, REq(u, R1))
-  IN RForce([j \in 1..K |-> SuffixSum(d, j + 1, K + 1)])
+CumFrom(L, K, p) ==
+  LET d == DerivsFrom(L, K, p) IN RForce([j \in 1..K |-> SuffixSum(d, j + 1, K + 1)])
+BasisCumT(K, u, p) == CumFrom(BasisLevels(K, u, REq(u, R1)), K, p)
+\* <<Btilde, Btilde', Btilde''>> from one table
+BasisCum3T(K, u) ==
+  LET L == BasisLevels(K, u, REq(u, R1)) IN <<CumFrom(L, K, 0), CumFrom(L, K, 1), CumFrom(L, K, 2)>>
 
 ---------------------------------------------------------------------------
 \* the index arithmetic as coded
